@@ -151,10 +151,10 @@ def handle (op : String) (args : List String) (impl : Impl) : Option Ans :=
       | _ => "FAIL:decode"
     pure { model := showResInt (Dur.truncated a), spec := sp,
            branch := "trunc:" ++ (if small then "small" else if fits then "mid" else "big") }
-  | "unit_mul_i64", [u, q] => do
+  | "unit_mul_i64", [u, q] | "tu_i64", [u, q] => do
     let f ← unitFactor u; let fs ← specFactor u; let q ← q.toInt?
     pure { model := "ok " ++ showDur (Dur.unitMulI64 f q), spec := judgeDur impl (clampD (q * fs)),
-           branch := "unit_mul_i64:" ++ u ++ ":" ++ satTag (q * fs) ++
+           branch := op ++ ":" ++ u ++ ":" ++ satTag (q * fs) ++
              (if q * fs < -9223372036854775808 ∨ q * fs > 9223372036854775807 then ":wide" else ":i64") }
   | "compose", [sg, d, h, m, sc, ms, us, ns] => do
     let sg ← sg.toInt?; let d ← d.toInt?; let h ← h.toInt?; let m ← m.toInt?; let sc ← sc.toInt?
